@@ -636,7 +636,7 @@ SHARD = 16
 
 def check(run):
     thorough = run.tier == "thorough"
-    n_cases = 4000 if thorough else 420
+    n_cases = 4000 if thorough else 520
     max_ops = 40 if thorough else 12
     run.coverage["rule"] = (
         "generated SDO/SRO/marking-definition objects (2.0 and 2.1; built by class constructor, by parse, or kept as plain "
